@@ -101,13 +101,14 @@ def run_C01(ctx):
         ("rel", "P1", "S1", 4 if q else 6, pr, {}), ("rel", "P1", "S2", 4 if q else 6, pr, {}), ("rel", "P1", "S3", 4 if q else 6, pr, {}), ("rel", "P1", "S4", 4 if q else 6, pr, {}),
         ("rel", "P7t", "S0", 4 if q else 6, pr, {}), ("rel", "P4h", "S0", 4 if q else 6, pr, {}), ("rel", "P4d", "S0", 5 if q else 7, pr, {}), ("rel", "P4d", "S6", 5 if q else 7, pr, {}),
         ("rel", "P2", "S9", 3 if q else 4, [], {}), ("rel", "P8f", "S10", 4 if q else 5, pr, {}), ("dbg", "P8f", "S10", 3 if q else 4, pr, {}), ("rel", "P8g", "S11", 4 if q else 5, pr, {}), ("rel", "P8g", "S11", 3 if q else 4, pr, LAZY),
+        ("rel", "P1q", "S12", 5 if q else 6, pr, {}), ("sec", "P1q", "S12", 4 if q else 5, pr, {}),
         ("dbg", "P1", "S0", 4 if q else 6, pr, {}), ("sec", "P1", "S0", 4 if q else 6, pr, {}),
         ("dbg", "P2", "S0", 3 if q else 4, pr, {}), ("sec", "P3r", "S0", 3 if q else 4, pr, {}),
     ]
     grid = [("rel", "entry", not q, {}), ("rel", "align", False, {}), ("dbg", "entry", False, {}), ("sec", "entry", False, {}),
             ("rel", "fillpage", False, {}), ("sec", "fillpage", False, {}), ("dbg", "fillpage", False, {})]
     return mixed_property(ctx, plan, grid,
-        rule="P8g from S11: three adjacent 3 MiB pages and a 1 MiB guard block in one segment; released in any order they coalesce into one span covering whole 64-slice fields of the segment's commit and purge masks, 9 MiB are allocated over it, collected and purged (also with lazy commit). P8f from S10: a segment filled to its end with 1 MiB pages; release / re-use / collect / clock ticks at its far end (last field of the commit and purge masks). P2 from S9: a 4 GiB arena whose first block holds a live segment and whose blocks 1..63 are taken, so that new segments get arena block indices >= 64 (second bitmap field). fillpage: for every size class up to 1 KiB and seven consecutive pages of it, the page is filled to its very last block while the next slice holds the page of a larger class (first block at the start of the slice); every block is checked against all live ones. inputs: every allocation entry point (30) x boundary size grid x release variant, and the (size, alignment, offset) grid of C03, in carried-over heap states; histories: all sequences of operations of each profile alphabet (P1 page life-cycle {malloc 8K/48, fill, free(i), collect}, P2 spans {64K,100K,1M,17M,40M}, P3 small, P3r realloc, P7t threads, P4h heaps) up to depth D from start states S0..S4; node oracle: every live block's whole usable range holds its pattern, new blocks are disjoint from live ones, aligned, inside accessible memory.",
+        rule="P1q from S12: page-queue transitions of a small class served through the direct-page table: a 512-byte page heads the full queue, the 1024-byte queue is [B exhausted but not yet looked at, A back from the full queue]; operations malloc(1024), malloc(64), collect, free(i) and free_page_of(i) (every live block of one page in one operation) up to depth D. P8g from S11: three adjacent 3 MiB pages and a 1 MiB guard block in one segment; released in any order they coalesce into one span covering whole 64-slice fields of the segment's commit and purge masks, 9 MiB are allocated over it, collected and purged (also with lazy commit). P8f from S10: a segment filled to its end with 1 MiB pages; release / re-use / collect / clock ticks at its far end (last field of the commit and purge masks). P2 from S9: a 4 GiB arena whose first block holds a live segment and whose blocks 1..63 are taken, so that new segments get arena block indices >= 64 (second bitmap field). fillpage: for every size class up to 1 KiB and seven consecutive pages of it, the page is filled to its very last block while the next slice holds the page of a larger class (first block at the start of the slice); every block is checked against all live ones. inputs: every allocation entry point (30) x boundary size grid x release variant, and the (size, alignment, offset) grid of C03, in carried-over heap states; histories: all sequences of operations of each profile alphabet (P1 page life-cycle {malloc 8K/48, fill, free(i), collect}, P2 spans {64K,100K,1M,17M,40M}, P3 small, P3r realloc, P7t threads, P4h heaps) up to depth D from start states S0..S4; node oracle: every live block's whole usable range holds its pattern, new blocks are disjoint from live ones, aligned, inside accessible memory.",
         assumptions=COMMON_ASSUME + ["free(i) is enumerated for all i while at most `free_window` blocks are live, else for the first and last window/2"])
 
 # ------------------------------------------------------------------------------------------------
@@ -247,6 +248,7 @@ def run_C13(ctx):
         plan.append(("rel", "P8h", "S0", 3 if q else 4, ["--observe", "monitor"], env))
     plan.append(("dbg", "P8h", "S0", 3, ["--observe", "monitor"], {"MIMALLOC_ARENA_EAGER_COMMIT": "0"}))
     plan.append(("rel", "P8f", "S10", 3 if q else 4, ["--observe", "monitor"], {}))
+    plan.append(("rel", "P8g", "S11", 3 if q else 4, ["--observe", "monitor"], LAZY)); plan.append(("sec", "P8g", "S11", 3, ["--observe", "monitor"], {"MIMALLOC_EAGER_COMMIT": "0"}))
     if not q:
         for k, env in enumerate(all_configs(OPTS13[:9])):     # full product of the 9 allocator options (576) at small depth
             plan.append((("rel", "dbg", "sec")[k % 3], "P8o", "S0", 3, ["--observe", "monitor"], env))
@@ -343,7 +345,7 @@ def run_C18(ctx):
             plan.append(("rel", "purge", [], envs(e, {"MIMALLOC_DISALLOW_ARENA_ALLOC": "1"})))
             plan.append(("rel", "purge", [], envs(e, {"MIMALLOC_ARENA_RESERVE": "64MiB"})))
     return os_property(ctx, plan, level="model_checking", parallel=8,
-        rule="scenario enumeration with the virtual clock: {what becomes unused: a 1 MiB page of an abandoned segment (its owner exited with two live 1 MiB blocks, another thread frees one: a non-forced collect that visits the segment releases the page, and a second one a delay later must give it back), a 1 MiB page inside a live segment, a whole (huge) segment, everything, four huge segments (one per arena when arenas are 64 MiB: a non-forced pass purges at most two arenas and must stay armed, so three passes a delay period apart have to return all four), four non-adjacent pages of one segment, the same four pages with one of the spans taken and released again (delay+1000)/(delay-extend)+2 times before any time passes (re-use must re-arm the expiry, not accumulate it)} x {later activity: free another page of the segment, allocate in the segment, alloc+free a 40 MiB block, mi_collect(false), small fast-path traffic (negative control)} x {purge_delay -1/0/5/10} x {decommit, reset} x {arena_purge_mult 1, 10} x {arenas on, off, small}. Oracle from the shim's call log: delay 0 -> the freed range is covered by madvise/munmap before the freeing call returns; delay d>0 -> no purge of the range before the clock passes d (d*mult for whole segments) whatever happens, and after it has passed the activities that reach a purge point (page: free of another page; segment: any arena free or non-forced collect) return the range without a forced collect; delay -1 -> no purge call at all, even under mi_collect(true).",
+        rule="scenario enumeration with the virtual clock: {what becomes unused: the last page of a size class (a 512 KiB page of 32 KiB blocks: mimalloc retires it for four fresh-page cycles; ordinary allocations alone -- no collect -- must release it and, a delay later, the release of another page must give its range back), a 1 MiB page of an abandoned segment (its owner exited with two live 1 MiB blocks, another thread frees one: a non-forced collect that visits the segment releases the page, and a second one a delay later must give it back), a 1 MiB page inside a live segment, a whole (huge) segment, everything, four huge segments (one per arena when arenas are 64 MiB: a non-forced pass purges at most two arenas and must stay armed, so three passes a delay period apart have to return all four), four non-adjacent pages of one segment, the same four pages with one of the spans taken and released again (delay+1000)/(delay-extend)+2 times before any time passes (re-use must re-arm the expiry, not accumulate it)} x {later activity: free another page of the segment, allocate in the segment, alloc+free a 40 MiB block, mi_collect(false), small fast-path traffic (negative control)} x {purge_delay -1/0/5/10} x {decommit, reset} x {arena_purge_mult 1, 10} x {arenas on, off, small}. Oracle from the shim's call log: delay 0 -> the freed range is covered by madvise/munmap before the freeing call returns; delay d>0 -> no purge of the range before the clock passes d (d*mult for whole segments) whatever happens, and after it has passed the activities that reach a purge point (page: free of another page; segment: any arena free or non-forced collect) return the range without a forced collect; delay -1 -> no purge call at all, even under mi_collect(true).",
         assumptions=COMMON_ASSUME + ["time is the shim's virtual clock", "allocating inside a segment re-arms its purge delay by design, so that activity is recorded as a control only"])
 
 # ------------------------------------------------------------------------------------------------
@@ -414,16 +416,17 @@ def run_C02(ctx):
     plan += [("dbg", "H2", 1 if q else 2, 1, {}), ("sec", "H3", 1 if q else 2, 1, {})]
     TGT = envs(RF, {"MIMALLOC_TARGET_SEGMENTS_PER_THREAD": "2"})
     plan += [("rel", "E3c", 1 if q else 2, 0, TGT), ("dbg", "E3c", 1, 0, TGT)]
+    plan += [(v, p, 2 if q else 3, 0, {}) for v in ("dbg", "sec") for p in ("H7", "H7f")]
     if q: plan += [("rel", ("family", 0, 700, ), 1, 0, {})]
     else: plan += [("rel", ("family", 0, 750), 2, 1, {}), ("rel", "H2", 3, 2, {}), ("rel", "H3", 3, 2, {}), ("rel", "H1", 3, 2, {}), ("rel", "H5", 3, 2, {}), ("dbg", "H5", 2, 1, {}), ("sec", "H2", 2, 1, {})]
     race = race_jobs(ctx, [(p, {}) for p in ("H1", "H2", "H3", "H4", "H5", "D1")] + [("E5", RF), ("E1", RF), (("family", 0, 700 if q else 750), {})])
     return conc_property(ctx, conc_jobs(ctx, plan), extra_jobs=race,
-        rule=RACE_NOTE.strip() + " Programs: E3c (target_segments_per_thread=2, reclaim-on-free: a thread at its segment target has a page in the full queue with a cross-thread free pending in the heap's delayed list and an empty size queue; an allocation that needs a fresh segment force-abandons that page's segment; the other thread adopts it by freeing into it; both then allocate from the class), AB1/AB2 (an abandoned segment whose pending purge is carried out by a visiting thread -- forced collect / search for a segment that finds it unsuitable -- while another thread adopts it by reclaim-on-free and allocates in the span), H1 (remote frees into a page with free blocks vs owner malloc through fast and generic path), H2 (page in the full queue: first remote free goes to the heap's delayed list, second to the page list, vs owner collect+malloc, 3 threads), H3 (two full pages, frees racing the owner's delayed-free take-over), H4 (huge block freed remotely vs owner collect/alloc), H5 (last blocks of a full page freed remotely and locally), D1 (heap delete vs frees), E1/E5 (frees into abandoned segments with reclaim-on-free), and a generated family: every program with 2 threads x 2 ops or 3 threads x 1 op over {malloc 8K, free a, free b, collect(0), collect(1)} on two shared blocks of one full page (750 programs). All interleavings up to the preemption bound (quick 2; family 1) with up to 1 spurious weak-CAS failure. Oracle: a block leaves the live set immediately before its free call and enters it after malloc returns; every returned range must be disjoint from all live blocks; every live block's full usable range must hold its pattern after every operation of every thread; no crash, assertion or error callback.",
+        rule=RACE_NOTE.strip() + " Programs: H7/H7f (debug and secure builds: blocks of 1..7 bytes between live 8-byte neighbours are freed by another thread -- the build has to make room for its free-list link inside them -- while the owner allocates, frees and collects; H7f with the page in the full queue so that the frees pass through the owner's delayed list), E3c (target_segments_per_thread=2, reclaim-on-free: a thread at its segment target has a page in the full queue with a cross-thread free pending in the heap's delayed list and an empty size queue; an allocation that needs a fresh segment force-abandons that page's segment; the other thread adopts it by freeing into it; both then allocate from the class), AB1/AB2 (an abandoned segment whose pending purge is carried out by a visiting thread -- forced collect / search for a segment that finds it unsuitable -- while another thread adopts it by reclaim-on-free and allocates in the span), H1 (remote frees into a page with free blocks vs owner malloc through fast and generic path), H2 (page in the full queue: first remote free goes to the heap's delayed list, second to the page list, vs owner collect+malloc, 3 threads), H3 (two full pages, frees racing the owner's delayed-free take-over), H4 (huge block freed remotely vs owner collect/alloc), H5 (last blocks of a full page freed remotely and locally), D1 (heap delete vs frees), E1/E5 (frees into abandoned segments with reclaim-on-free), and a generated family: every program with 2 threads x 2 ops or 3 threads x 1 op over {malloc 8K, free a, free b, collect(0), collect(1)} on two shared blocks of one full page (750 programs). All interleavings up to the preemption bound (quick 2; family 1) with up to 1 spurious weak-CAS failure. Oracle: a block leaves the live set immediately before its free call and enters it after malloc returns; every returned range must be disjoint from all live blocks; every live block's full usable range must hold its pattern after every operation of every thread; no crash, assertion or error callback.",
         assumptions=COMMON_ASSUME[:2] + SCHED_ASSUME)
 
 def run_C08(ctx):
     q = ctx.quick
-    plan = [("rel", p, 2, 1, {}) for p in ("H2", "H3", "H5", "D1", "D3")] + [("rel", "PC", 2, 0, {}), ("rel", "R1", 2 if q else 3, 0, RF), ("rel", "R2", 2 if q else 3, 0, RF), ("rel", "R3", 2 if q else 3, 0, {}), ("sec", "R3", 1 if q else 2, 0, {})] + ([] if q else [("rel", "PCs", 3, 0, {})])
+    plan = [("rel", p, 2, 1, {}) for p in ("H2", "H3", "H5", "D1", "D3")] + [("rel", "PC", 2, 0, {}), ("rel", "R1", 2 if q else 3, 0, RF), ("rel", "R2", 2 if q else 3, 0, RF), ("rel", "R3", 2 if q else 3, 0, {}), ("sec", "R3", 1 if q else 2, 0, {}), ("rel", "R4", 2 if q else 3, 0, {}), ("dbg", "R4", 1 if q else 2, 0, {})] + ([] if q else [("rel", "PCs", 3, 0, {})])
     plan += [("dbg", "H2", 1 if q else 2, 1, {})]
     # frees racing with the owner's exit: nothing may be lost either (final leak check of the E programs)
     plan += [("rel", "E1", 2, 0, {}), ("rel", "E1", 2, 0, RF), ("rel", "E5", 2, 0, RF)]
@@ -431,7 +434,7 @@ def run_C08(ctx):
     else: plan += [("rel", ("family", 0, 750), 2, 1, {}), ("rel", "H2", 3, 1, {}), ("rel", "H3", 3, 2, {}), ("sec", "H3", 2, 1, {})]
     race = race_jobs(ctx, [(p, {}) for p in ("H2", "H3", "H5", "D1", "D3", "PC")] + [("R1", RF), ("R2", RF)])
     return conc_property(ctx, conc_jobs(ctx, plan), extra_jobs=race,
-        rule=RACE_NOTE.strip() + " R3: as R1 without adoption, and the page that becomes full also holds a live over-allocated aligned block (interior pointer, page flag has_aligned): the remote frees must make it usable again all the same. A (nothing lost): programs H2, H3, H5, D1, D3 and the generated family (see C02): after the explored phase every remaining block is freed, the owner runs mi_heap_collect(heap, true) and then its heap must hold no page (page_count == 0 and no area with used > 0). B (no blow-up): producer/consumer PC: rounds of 8 blocks of 8 KiB (one page), the producer starts round r only after the consumer freed round r-2, six rounds, the owner never collects; the number of pages held by the owner after each round must stay <= 5 (3 pages of live/in-flight blocks + warm-up page + one retired page) in every interleaving (a stuck page per round gives >= 7).",
+        rule=RACE_NOTE.strip() + " R4: a small class (1024 bytes, served by the fast path through the direct-page table, so a page that hands out its last block stays unseen at the head of its queue): page A in the full queue, head page B exhausted; another thread frees three blocks of A; the owner's next allocations must find A behind B instead of taking a fresh page. R3: as R1 without adoption, and the page that becomes full also holds a live over-allocated aligned block (interior pointer, page flag has_aligned): the remote frees must make it usable again all the same. A (nothing lost): programs H2, H3, H5, D1, D3 and the generated family (see C02): after the explored phase every remaining block is freed, the owner runs mi_heap_collect(heap, true) and then its heap must hold no page (page_count == 0 and no area with used > 0). B (no blow-up): producer/consumer PC: rounds of 8 blocks of 8 KiB (one page), the producer starts round r only after the consumer freed round r-2, six rounds, the owner never collects; the number of pages held by the owner after each round must stay <= 5 (3 pages of live/in-flight blocks + warm-up page + one retired page) in every interleaving (a stuck page per round gives >= 7).",
         assumptions=COMMON_ASSUME[:2] + SCHED_ASSUME + ["PC sets generic_count=99 before each round so that the administrative step that mimalloc performs every 100 generic allocations happens once per round (time compression of a long run)", "the no-blow-up clause is checked for six rounds"])
 
 def run_C09(ctx):
@@ -532,7 +535,7 @@ def run_C17(ctx):
             ("sec", "P9g", "S8", 4 if q else 6, pr, {}), ("dbg", "P9g", "S8", 4 if q else 5, pr, {})]
     grid = [("sec", "hardened", not q, {}), ("dbg", "hardened", not q, {})]
     return mixed_property(ctx, plan, grid,
-        rule="size grid (mode hardened, every case in its own process): every requested size 1..130 and the boundary size grid up to 2 MiB x {foreign byte at offset = requested size, block freed by its own thread -> EFAULT; the same freed by another thread -> EFAULT; second free while a neighbour in the same page is live -> exactly one EAGAIN, afterwards two allocations return distinct non-overlapping blocks (secure build)}. Histories (forged link targets: another segment-sized region, a live block of another page, the gap between the start of the page's slice and its block area, an address 128 KiB further in the same segment; whenever a block whose link was forged is handed out again the number of such blocks must not exceed the number of EFAULT reports; profile P9g from start state S8 = 40-byte blocks, free list of the page empty): hardened builds (MI_SECURE=4 decides 'stays usable'; MI_DEBUG=3 the reports only), error callback registered: all sequences over {malloc(8000), malloc(100), fill(8 x 8000 = one page), free(i)} plus the three faults at every position the history allows: double_free(j) = second free of any of the six most recently released blocks that is still free while its page holds another live block (expected: exactly one EAGAIN and an unchanged allocator fingerprint); overflow_then_free(i) = one foreign byte at p[requested] of a block with slack, then free (expected: EFAULT); forge_link(j, target) = the free-list link of a released block overwritten with the encoding of an address outside its page (another segment, or a live block of another page) (expected: EFAULT when the allocator reaches it instead of following it). In the secure build exploration continues afterwards under the C01 oracle (no overlap, contents, accessibility) and every live block must lie in a heap region; in the debug build the branch ends after the first report.",
+        rule="hardened grid kind 3 (control): an intact block of a page in the full queue, freed by another thread (the free goes through the owner's delayed list and a hardened build stores its link inside the block, shrinking the padding of requests below 8 bytes), owner collects: no report at all, block re-usable, neighbours intact. " + "size grid (mode hardened, every case in its own process): every requested size 1..130 and the boundary size grid up to 2 MiB x {foreign byte at offset = requested size, block freed by its own thread -> EFAULT; the same freed by another thread -> EFAULT; second free while a neighbour in the same page is live -> exactly one EAGAIN, afterwards two allocations return distinct non-overlapping blocks (secure build)}. Histories (forged link targets: another segment-sized region, a live block of another page, the gap between the start of the page's slice and its block area, an address 128 KiB further in the same segment; whenever a block whose link was forged is handed out again the number of such blocks must not exceed the number of EFAULT reports; profile P9g from start state S8 = 40-byte blocks, free list of the page empty): hardened builds (MI_SECURE=4 decides 'stays usable'; MI_DEBUG=3 the reports only), error callback registered: all sequences over {malloc(8000), malloc(100), fill(8 x 8000 = one page), free(i)} plus the three faults at every position the history allows: double_free(j) = second free of any of the six most recently released blocks that is still free while its page holds another live block (expected: exactly one EAGAIN and an unchanged allocator fingerprint); overflow_then_free(i) = one foreign byte at p[requested] of a block with slack, then free (expected: EFAULT); forge_link(j, target) = the free-list link of a released block overwritten with the encoding of an address outside its page (another segment, or a live block of another page) (expected: EFAULT when the allocator reaches it instead of following it). In the secure build exploration continues afterwards under the C01 oracle (no overlap, contents, accessibility) and every live block must lie in a heap region; in the debug build the branch ends after the first report.",
         assumptions=COMMON_ASSUME + ["forged values that decode into the same page, and a second free after the whole page was released, are outside the claim and not generated"])
 
 def run_C15(ctx):
@@ -546,8 +549,11 @@ def run_C15(ctx):
              ("rel", "P6a", "Sa18", 4, [], {"MIMALLOC_PURGE_DELAY": "0"})]
     # the same shapes registered for NUMA node 1 (the process runs on node 0: the arena is only reachable through the second, foreign-node arm of the arena search)
     plan += [("rel", "P6a", f"Sn{k}", 4 if q else 5, pr, {}) for k in ((2, 3) if q else (0, 1, 2, 3, 22, 23, 59, 41))]
+    # the arena-bound heap as the thread's default heap while frees adopt abandoned segments (reclaim-on-free); no arena reservation, so that default-heap memory comes straight from the OS
+    RF0 = {"MIMALLOC_ABANDONED_RECLAIM_ON_FREE": "1", "MIMALLOC_ARENA_RESERVE": "0"}
+    plan += [("rel", "P6d", "Sa3", 5 if q else 6, pr, RF0), ("rel", "P6d", "Sa2", 5 if q else 6, pr, RF0), ("rel", "P6d", "Sa1", 4 if q else 5, pr, RF0), ("dbg", "P6d", "Sa3", 4, [], RF0)]
     return seq_property(ctx, plan,
-        rule="Sn<shape>: the region is registered for NUMA node 1 while the process runs on node 0 (exclusive and shared), so every allocation reaches it through the foreign-node arm of the arena search. The harness maps guard | canary | region | canary | guard, hands [start+delta, +size) to mi_manage_os_memory_ex for delta in {0, 4 KiB, 1 MiB, 32 MiB - 4 KiB} x size in {64, 95, 96, 100 MiB} x exclusive {0,1} x committed {0,1} (quick: 8 shapes; thorough: all 64) and explores all sequences over {heap_new_in_arena, heap_malloc(arena heap, 8K/1M/17M), malloc (default heap, same sizes), free(i), collect(1), thread_arena_alloc (a helper thread creates an arena-bound heap, allocates two blocks and exits with them live), thread_alloc (a helper thread allocates 12 blocks from its default heap, keeps the first and last, exits)} up to depth D. Node oracle: blocks of arena-bound heaps lie inside the arena; for an exclusive arena no block of any other heap intersects it (also after the same thread freed an arena page, and after adoption of abandoned segments through allocation or forced collect); an arena-bound heap returns NULL only when the arena cannot serve the request; canary pages around the given range intact and no OS call (mprotect/madvise/munmap) on memory outside the given range.",
+        rule="P6d: one size, and mi_heap_set_default(arena heap) / back: with reclaim-on-free and no arena reservation a free adopts an abandoned OS segment into whatever heap is the default -- it must never become memory of the arena-bound heap. Sn<shape>: the region is registered for NUMA node 1 while the process runs on node 0 (exclusive and shared), so every allocation reaches it through the foreign-node arm of the arena search. The harness maps guard | canary | region | canary | guard, hands [start+delta, +size) to mi_manage_os_memory_ex for delta in {0, 4 KiB, 1 MiB, 32 MiB - 4 KiB} x size in {64, 95, 96, 100 MiB} x exclusive {0,1} x committed {0,1} (quick: 8 shapes; thorough: all 64) and explores all sequences over {heap_new_in_arena, heap_malloc(arena heap, 8K/1M/17M), malloc (default heap, same sizes), free(i), collect(1), thread_arena_alloc (a helper thread creates an arena-bound heap, allocates two blocks and exits with them live), thread_alloc (a helper thread allocates 12 blocks from its default heap, keeps the first and last, exits)} up to depth D. Node oracle: blocks of arena-bound heaps lie inside the arena; for an exclusive arena no block of any other heap intersects it (also after the same thread freed an arena page, and after adoption of abandoned segments through allocation or forced collect); an arena-bound heap returns NULL only when the arena cannot serve the request; canary pages around the given range intact and no OS call (mprotect/madvise/munmap) on memory outside the given range.",
         assumptions=COMMON_ASSUME + ["helper threads run to completion inside one operation (sequential thread exit / adoption)"])
 
 # ------------------------------------------------------------------------------------------------
@@ -606,7 +612,7 @@ def run_C19(ctx):
             viol.append(dict(key=f"C19:{mode}:{key}", msg=v, replay=rp))
     samples += ["malloc(100000) -> delete[](sized)", "new[](align)(24) -> realloc(p,2n+1)", "posix_memalign(&p, 0, 64) == EINVAL with p untouched"]
     cov = dict(evaluations=pairs + 2 * 14, distinct_nontrivial=nontriv,
-        rule="(third run: the same matrix against a hardened MI_SECURE=4 build of the preloaded library; whatever malloc_usable_size reports is written in full before the block is released) the shared library (LD_PRELOAD) and the static override object are built from the working tree with the suite's flags; for both, every triple (allocating entry point in {malloc, calloc, realloc(NULL), posix_memalign, aligned_alloc, memalign, valloc, pvalloc, reallocarray(NULL), strdup, strndup, realpath, new, new[], nothrow and aligned forms, __libc_malloc/calloc/realloc/memalign/valloc/pvalloc} x size in {0, 1, 24, 4096, 100000, 20 MiB} x releasing/resizing/querying entry point in {free, cfree, realloc up/down/0, reallocarray, malloc_usable_size, delete, delete[], sized, aligned, sized-aligned, nothrow forms, __libc_free, __libc_realloc}) runs in its own process: the pointer must be a mimalloc heap block with usable size >= n (and aligned), the heap walk must report it once, the release must leave the heap's block count where it was before the allocation, resizes keep contents; plus standard return codes (posix_memalign EINVAL/ENOMEM with untouched out-parameter for alignment 0/3/24/4, reallocarray and calloc overflow, malloc(0), nothrow new), a C++ containers/streams/threads program, and mallinfo2() showing that glibc's allocator was never used. distinct_nontrivial = triples with size >= 4096.",
+        rule="(cross-thread case in every run: 30000 blocks of 1..7 bytes from malloc/calloc/strdup/strndup/operator new/realloc(NULL) fill whole pages, are verified and released by another thread with free / operator delete, then the owner allocates twice as many again) (third run: the same matrix against a hardened MI_SECURE=4 build of the preloaded library; whatever malloc_usable_size reports is written in full before the block is released) the shared library (LD_PRELOAD) and the static override object are built from the working tree with the suite's flags; for both, every triple (allocating entry point in {malloc, calloc, realloc(NULL), posix_memalign, aligned_alloc, memalign, valloc, pvalloc, reallocarray(NULL), strdup, strndup, realpath, new, new[], nothrow and aligned forms, __libc_malloc/calloc/realloc/memalign/valloc/pvalloc} x size in {0, 1, 24, 4096, 100000, 20 MiB} x releasing/resizing/querying entry point in {free, cfree, realloc up/down/0, reallocarray, malloc_usable_size, delete, delete[], sized, aligned, sized-aligned, nothrow forms, __libc_free, __libc_realloc}) runs in its own process: the pointer must be a mimalloc heap block with usable size >= n (and aligned), the heap walk must report it once, the release must leave the heap's block count where it was before the allocation, resizes keep contents; plus standard return codes (posix_memalign EINVAL/ENOMEM with untouched out-parameter for alignment 0/3/24/4, reallocarray and calloc overflow, malloc(0), nothrow new), a C++ containers/streams/threads program, and mallinfo2() showing that glibc's allocator was never used. distinct_nontrivial = triples with size >= 4096.",
         samples=samples, exhaustive=True, passed=ok)
     return dict(coverage=cov, assumptions=["Linux/glibc, gcc/g++; the C build of mimalloc (operator new cannot throw: the throwing forms are only used with sizes that succeed)", "LD_PRELOAD with an uninstrumented release build of the library"], violations=viol, infra=infra)
 
